@@ -891,13 +891,36 @@ def r13_13(chk, P):
             if a['k'] != 'ref' or a['decl'].get('kind') != 'param':
                 continue
             pid = a['decl']['id']
-            for cc, pol in common.controlling_conditions(F, c):
+            # fields of the parameter that are tested anywhere; the free is guarded by field f when it becomes unreachable once
+            # the edges on which `param->f` is true are cut (covers `if(p->f){..free(p);}` and `if(!p->f)return;`)
+            tests = {}
+            for b_, blk in F.blocks.items():
+                t = blk.get('term') or {}
+                cc = t.get('cond')
+                if cc is None or len(blk['succs']) != 2:
+                    continue
                 cn = F.ex[F.strip_casts(cc)]
-                if pol and cn['k'] == 'member':
-                    b = F.ex[F.strip_casts(cn['c'][0])]
-                    if b['k'] == 'ref' and b['decl'].get('id') == pid:
-                        pi = [i for i, p_ in enumerate(F.params) if p_['id'] == pid][0]
-                        guards[P.key(F)] = (pi, cn['field'], cn.get('record'))
+                neg = False
+                while cn['k'] == 'un' and cn['op'] == '!':
+                    neg = not neg
+                    cn = F.ex[F.strip_casts(cn['c'][0])]
+                if cn['k'] == 'member':
+                    bb = F.ex[F.strip_casts(cn['c'][0])]
+                    if bb['k'] == 'ref' and bb['decl'].get('id') == pid:
+                        tests.setdefault((cn['field'], cn.get('record')), set()).add((b_, 1 if neg else 0))
+            for (fld_, rec_), cut in tests.items():
+                seen, st = set(), [F.entry]
+                while st:
+                    x = st.pop()
+                    if x is None or x in seen:
+                        continue
+                    seen.add(x)
+                    for i_, s_ in enumerate(F.blocks[x]['succs']):
+                        if (x, i_) not in cut:
+                            st.append(s_)
+                if F.pos[c][0] not in seen:
+                    pi = [i for i, p_ in enumerate(F.params) if p_['id'] == pid][0]
+                    guards[P.key(F)] = (pi, fld_, rec_)
     chk.require(guards, 'no flag-guarded release function found')
     n = 0
     for G in P.functions():
